@@ -486,3 +486,169 @@ def element_source(ctx, f, name_node: ast.Name):
     if len(defs) == 1 and isinstance(defs[0], ast.For):
         return iter_source(defs[0].target, defs[0].iter, name_node.id)
     return None
+
+
+# ---------------------------------------------------------------------------------------------
+# roles that survive refactoring: extracted helpers, De-Morgan'd tests, flags that hold a test
+# ---------------------------------------------------------------------------------------------
+
+def stmt_of_expr(n):
+    while n is not None and not isinstance(n, ast.stmt):
+        n = parent(n)
+    return n
+
+
+def resolve_single(ctx, f, call: ast.Call):
+    """The one repository function a call resolves to (not through the unique-name fallback), else None."""
+    try:
+        targets, how = ctx.cg.resolve_call(f, call)
+    except Exception:
+        return None
+    if how == "by-name" or len(targets) != 1:
+        return None
+    return targets[0]
+
+
+def helper_scopes(ctx, f, exclude=(), depth=2) -> List[object]:
+    """`f` followed by the helpers of the same module it calls (transitively, `depth` levels): the functions over which the body
+    of `f` may have been distributed by an extract-method refactoring.  `exclude`: functions that are anchors of their own."""
+    out, seen = [f], {f.qual} | {e.qual for e in exclude}
+    frontier = [f]
+    for _ in range(depth):
+        nxt = []
+        for g in frontier:
+            for n in walk_shallow(g.node):
+                if isinstance(n, ast.Call):
+                    t = resolve_single(ctx, g, n)
+                    if t is not None and t.qual not in seen and t.module is f.module:
+                        seen.add(t.qual)
+                        out.append(t)
+                        nxt.append(t)
+        frontier = nxt
+    return out
+
+
+def bind_args(g, call: ast.Call) -> Dict[str, ast.AST]:
+    """parameter name of `g` -> argument expression of `call` (positional and keyword; `self` of a method is skipped)."""
+    params = list(g.params)
+    if g.cls is not None and not g.is_static and params and params[0] == g.self_name:
+        params = params[1:]
+    out = {}
+    for i, a in enumerate(call.args):
+        if isinstance(a, ast.Starred):
+            break
+        if i < len(params):
+            out[params[i]] = a
+    for k in call.keywords:
+        if k.arg is not None:
+            out[k.arg] = k.value
+    return out
+
+
+def returns_of(g) -> List[ast.Return]:
+    return [s for s in walk_shallow(g.node) if isinstance(s, ast.Return) and s.value is not None]
+
+
+def attr_readers(g, key: str) -> Set[str]:
+    """Locals of `g` that receive the attribute `key` of a mapping: `x = m['key']`, `x = m.get('key'[, d])`, `x = m.pop('key'[, d])`."""
+    out = set()
+    for n in walk_shallow(g.node):
+        if isinstance(n, (ast.Assign, ast.AnnAssign)):
+            tg = n.targets if isinstance(n, ast.Assign) else [n.target]
+            v = n.value
+            if v is None or len(tg) != 1 or not isinstance(tg[0], ast.Name):
+                continue
+            if isinstance(v, ast.Subscript) and const_str(v.slice) == key:
+                out.add(tg[0].id)
+            elif isinstance(v, ast.Call) and call_name(v) in ("get", "pop") and v.args and const_str(v.args[0]) == key:
+                out.add(tg[0].id)
+    return out
+
+
+def edge_attr_scope(ctx, coll, keys, exclude=()):
+    """(function, {key: local}) - the function (the collector itself or a helper extracted from it) in which the edge attributes
+    `keys` are read into locals.  AnalysisError unless exactly one scope reads them, each into exactly one local."""
+    found = []
+    for g in helper_scopes(ctx, coll, exclude=exclude):
+        got = {k: attr_readers(g, k) for k in keys}
+        if any(got.values()):
+            found.append((g, got))
+    if len(found) != 1:
+        raise AnalysisError(f"{coll.qual}: cannot identify the scope that reads the edge attribute(s) {list(keys)} into locals "
+                            f"(candidates: {[g.qualname for g, _ in found]})")
+    g, got = found[0]
+    bad = {k: sorted(v) for k, v in got.items() if len(v) != 1}
+    if bad:
+        raise AnalysisError(f"{g.qual}: cannot identify the local(s) that hold the edge attribute(s) {bad}")
+    return g, {k: next(iter(v)) for k, v in got.items()}
+
+
+def _is_none(e) -> bool:
+    return isinstance(e, ast.Constant) and e.value is None
+
+
+def truth_when_none(ctx, f, test, name: str, _depth=0) -> Optional[bool]:
+    """Truth value of `test` when the local `name` is None, if that alone decides it (short-circuit semantics), else None.
+    Understands `x is None`, `x is not None`, `x == None`, `not ...`, `or`/`and`, bare `x`, and a flag local whose single
+    definition is such a test."""
+    if isinstance(test, ast.Compare) and len(test.ops) == 1:
+        l, op, r = test.left, test.ops[0], test.comparators[0]
+        if _is_none(l):
+            l, r = r, l
+        if isinstance(l, ast.Name) and l.id == name and _is_none(r):
+            if isinstance(op, (ast.Is, ast.Eq)):
+                return True
+            if isinstance(op, (ast.IsNot, ast.NotEq)):
+                return False
+        return None
+    if isinstance(test, ast.UnaryOp) and isinstance(test.op, ast.Not):
+        v = truth_when_none(ctx, f, test.operand, name, _depth)
+        return None if v is None else not v
+    if isinstance(test, ast.BoolOp):
+        # evaluation is left to right: only the parts before the first undecided one count, unless a later part cannot raise/alter
+        vals = [truth_when_none(ctx, f, p, name, _depth) for p in test.values]
+        if isinstance(test.op, ast.Or):
+            if any(v is True for v in vals):
+                return True
+            return False if all(v is False for v in vals) else None
+        if any(v is False for v in vals):
+            return False
+        return True if all(v is True for v in vals) else None
+    if isinstance(test, ast.Name):
+        if test.id == name:
+            return False
+        if _depth < 3 and f is not None:
+            v = single_value(ctx, f, test)
+            if v is not None and not isinstance(v, ast.Name):
+                return truth_when_none(ctx, f, v, name, _depth + 1)
+    return None
+
+
+def mentions(e, name: str) -> bool:
+    return any(isinstance(x, ast.Name) and x.id == name for x in ast.walk(e))
+
+
+def flag_arm_when_false(test, flag: str) -> Optional[bool]:
+    """The arm (True = body, False = orelse) of `if test` that is certainly taken when the boolean local `flag` is False:
+    `flag`, `flag and X` -> orelse; `not flag`, `not flag or X`, `not (flag and X)` -> body.  None: the flag alone does not decide."""
+    def val(t) -> Optional[bool]:
+        # value of t when flag is False, if decided
+        if isinstance(t, ast.Name) and t.id == flag:
+            return False
+        if isinstance(t, ast.UnaryOp) and isinstance(t.op, ast.Not):
+            v = val(t.operand)
+            return None if v is None else not v
+        if isinstance(t, ast.BoolOp):
+            vs = [val(p) for p in t.values]
+            if isinstance(t.op, ast.And):
+                return False if any(v is False for v in vs) else None
+            return True if any(v is True for v in vs) else None
+        if isinstance(t, ast.Compare) and len(t.ops) == 1 and isinstance(t.left, ast.Name) and t.left.id == flag \
+                and isinstance(t.comparators[0], ast.Constant) and isinstance(t.comparators[0].value, bool):
+            c = t.comparators[0].value
+            if isinstance(t.ops[0], (ast.Is, ast.Eq)):
+                return c is False
+            if isinstance(t.ops[0], (ast.IsNot, ast.NotEq)):
+                return c is True
+        return None
+    return val(test)
